@@ -51,6 +51,8 @@ pub struct Opts {
     /// several objects with the same number (different generations), pages listed twice, bookmark ids missing
     pub malformed: bool,
     pub max_other: usize,
+    /// 1-4 intermediate Pages nodes, nested into each other (page trees up to 5 levels deep)
+    pub deep_tree: bool,
 }
 
 pub struct GenDoc { pub doc: Document, pub leaves: Vec<ObjectId>, pub others: Vec<ObjectId> }
@@ -109,7 +111,7 @@ fn gen_dict(r: &mut Rng, depth: usize, p: &RefPool) -> Dictionary {
 
 pub fn gen_doc(r: &mut Rng, o: &Opts) -> GenDoc {
     let n_pages = if r.chance(1, 12) { 0 } else { 1 + r.usize(6) };
-    let n_nodes = r.usize(3);
+    let n_nodes = if o.deep_tree { 1 + r.usize(4) } else { r.usize(3) };
     let n_other = r.usize(o.max_other + 1);
     let total = 2 + n_nodes + n_pages + n_other;
     // sparse numbers >= 1, distinct; a few non-zero generations
@@ -141,20 +143,35 @@ pub fn gen_doc(r: &mut Rng, o: &Opts) -> GenDoc {
     let mut pi = 0usize;
     let mut ni = 0usize;
     let mut parent_of: BTreeMap<ObjectId, ObjectId> = BTreeMap::new();
+    // deep_tree: the path of nodes a new node may be hung under (always as the LAST kid, so that the
+    // depth-first order of the pages stays the order in which they are handed out)
+    let mut chain: Vec<ObjectId> = vec![];
     while pi < n_pages || ni < n_nodes {
         if ni < n_nodes && (pi >= n_pages || r.chance(1, 3)) {
             let nid = node_ids[ni]; ni += 1;
             let run = if pi < n_pages { r.usize(n_pages - pi + 1).min(3) } else { 0 };
             let mut kids = vec![];
             for _ in 0..run { kids.push(Object::Reference(page_ids[pi])); parent_of.insert(page_ids[pi], nid); leaves.push(page_ids[pi]); pi += 1; }
+            let nest = o.deep_tree && !chain.is_empty() && r.chance(3, 4);
+            if nest { while chain.len() > 1 && r.chance(1, 4) { chain.pop(); } } else { chain.clear(); }
+            let parent = if nest { *chain.last().unwrap() } else { root };
             let mut d = Dictionary::new();
             d.set("Type", Object::Name(b"Pages".to_vec()));
-            d.set("Parent", Object::Reference(root));
+            d.set("Parent", Object::Reference(parent));
             d.set("Count", Object::Integer(run as i64));
             d.set("Kids", Object::Array(kids));
             doc.objects.insert(nid, Object::Dictionary(d));
-            root_kids.push(Object::Reference(nid));
+            if nest {
+                for (k, a) in chain.iter().enumerate() {
+                    if let Some(Object::Dictionary(ad)) = doc.objects.get_mut(a) {
+                        if let Ok(Object::Integer(n)) = ad.get(b"Count") { let n = *n; ad.set("Count", Object::Integer(n + run as i64)); }
+                        if k + 1 == chain.len() { if let Ok(Object::Array(ks)) = ad.get_mut(b"Kids") { ks.push(Object::Reference(nid)); } }
+                    }
+                }
+            } else { root_kids.push(Object::Reference(nid)); }
+            chain.push(nid);
         } else {
+            chain.clear();
             root_kids.push(Object::Reference(page_ids[pi])); parent_of.insert(page_ids[pi], root); leaves.push(page_ids[pi]); pi += 1;
         }
     }
@@ -212,6 +229,89 @@ pub fn gen_doc(r: &mut Rng, o: &Opts) -> GenDoc {
         }
     }
     GenDoc { doc, leaves, others }
+}
+
+/// `depth` containers (arrays / dictionaries, mixed; the outermost a stream dictionary when `stream_top`) around `inner`
+pub fn deep_chain(r: &mut Rng, depth: usize, inner: Object, stream_top: bool) -> Object {
+    let mut cur = inner;
+    for level in 0..depth {
+        let top = level + 1 == depth;
+        let as_dict = (top && stream_top) || r.chance(1, 2);
+        if as_dict {
+            let mut d = Dictionary::new();
+            if r.chance(1, 4) { d.set("A", gen_leaf(r)); }
+            d.set(*r.pick(&["K", "Next", "Dest"]), cur);
+            if r.chance(1, 4) { d.set("B", gen_leaf(r)); }
+            cur = if top && stream_top { Object::Stream(Stream::new(d, vec![1, 2, 3])) } else { Object::Dictionary(d) };
+        } else {
+            let mut v = vec![];
+            if r.chance(1, 4) { v.push(gen_leaf(r)); }
+            v.push(cur);
+            if r.chance(1, 4) { v.push(gen_leaf(r)); }
+            cur = Object::Array(v);
+        }
+    }
+    cur
+}
+fn pick_depth(r: &mut Rng) -> usize { if r.chance(1, 2) { *r.pick(&[100usize, 126, 127, 128]) } else { 1 + r.usize(128) } }
+
+/// references at nesting depths 1..128 (128 = the deepest the reader accepts): a holder object made of `d`
+/// nested containers, reachable from the catalog, whose innermost item is the ONLY reference to a target object
+/// (so the target must be renamed / kept / stripped through it); likewise a trailer entry. Returns the depths used.
+pub fn add_deep_refs(r: &mut Rng, g: &mut GenDoc) -> Vec<usize> {
+    let mut used = vec![];
+    let cat = match g.doc.trailer.get(b"Root") { Ok(Object::Reference(c)) => *c, _ => return used };
+    let mut next = g.doc.objects.keys().map(|k| k.0).max().unwrap_or(0).max(g.doc.max_id);
+    let mut fresh = |r: &mut Rng| -> ObjectId { next += 1 + r.below(3) as u32; (next, if r.chance(1, 8) { 1 } else { 0 }) };
+    for k in 0..1 + r.usize(2) {
+        let d = pick_depth(r);
+        let target = fresh(r); let holder = fresh(r);
+        let mut td = Dictionary::new(); td.set("DeepTarget", Object::Integer(d as i64));
+        // the target in turn refers to something, so that queuing it matters
+        if let Some(x) = g.doc.objects.keys().next().cloned() { td.set("Back", Object::Reference(x)); }
+        g.doc.objects.insert(target, Object::Dictionary(td));
+        // the holder itself is the outermost container (depth 0), its innermost item sits at depth d
+        let st = r.chance(1, 4);
+        g.doc.objects.insert(holder, deep_chain(r, d, Object::Reference(target), st));
+        if let Some(Object::Dictionary(cd)) = g.doc.objects.get_mut(&cat) { cd.set(format!("Deep{}", k), Object::Reference(holder)); }
+        g.others.push(target); g.others.push(holder); used.push(d);
+    }
+    if r.chance(1, 2) {
+        // trailer entries are at depth 1 already
+        let d = pick_depth(r);
+        let target = fresh(r);
+        let mut td = Dictionary::new(); td.set("DeepTarget", Object::Integer(d as i64));
+        g.doc.objects.insert(target, Object::Dictionary(td));
+        g.doc.trailer.set("Deep", deep_chain(r, d - 1, Object::Reference(target), false));
+        g.others.push(target); used.push(d);
+    }
+    g.doc.max_id = g.doc.max_id.max(next);
+    used
+}
+
+/// references whose generation disagrees with the stored object's (`7 1 R` next to `7 0 obj`): they denote
+/// null — the object (7, 0) is NOT referenced by them. Put into reachable dictionaries; the targets are objects
+/// nothing else reaches where there are such. Returns how many were placed.
+pub fn add_stale_refs(r: &mut Rng, g: &mut GenDoc) -> usize {
+    let keys: Vec<ObjectId> = g.doc.objects.keys().cloned().collect();
+    if keys.is_empty() { return 0; }
+    let reach = reachable(&g.doc);
+    let unreach: Vec<ObjectId> = keys.iter().filter(|k| !reach.contains(k)).cloned().collect();
+    let holders: Vec<ObjectId> = g.doc.objects.iter().filter(|(k, o)| reach.contains(k) && matches!(o, Object::Dictionary(_))).map(|(k, _)| *k).collect();
+    if holders.is_empty() { return 0; }
+    let mut placed = 0;
+    for i in 0..1 + r.usize(3) {
+        let t = if !unreach.is_empty() && r.chance(2, 3) { *r.pick(&unreach) } else { *r.pick(&keys) };
+        let g2 = if t.1 == 0 { 1 + r.below(2) as u16 } else if r.chance(1, 2) { 0 } else { t.1 + 1 };
+        if g.doc.objects.contains_key(&(t.0, g2)) { continue; }
+        let stale = Object::Reference((t.0, g2));
+        let h = *r.pick(&holders);
+        if let Some(Object::Dictionary(d)) = g.doc.objects.get_mut(&h) {
+            if r.chance(1, 2) { d.set(format!("Stale{}", i), stale); } else { d.set(format!("StaleA{}", i), Object::Array(vec![Object::Integer(0), stale])); }
+            placed += 1;
+        }
+    }
+    placed
 }
 
 /// save and load again; bookmarks (in-memory only) are carried over
@@ -531,15 +631,15 @@ fn maybe_loaded(c: &mut Ctx, r: &mut Rng, g: GenDoc) -> GenDoc {
 }
 
 pub fn run(c: &mut Ctx) {
-    c.rule = "random documents: 0-6 pages over a root and 0-2 intermediate Pages nodes with page ids shuffled against page order, \
+    c.rule = "random documents: 0-6 pages over a root and 0-2 intermediate Pages nodes (stream deep_nesting: 1-4, nested up to 5 levels) with page ids shuffled against page order, \
 sparse numbers, non-zero generations, up to 10 further objects (arrays/dicts/streams/top-level references) whose references are shared, cyclic, \
-from the trailer, dangling (out of range), unreachable holders; bookmarks via Document::add_bookmark; 1 in 4 saved and re-loaded; \
+from the trailer, dangling (out of range), unreachable holders; references inside 1..128 nested arrays / dictionaries / stream dictionaries that are the only way to their target (deep_nesting); references with a generation the stored object does not have (stale_generation); bookmarks via Document::add_bookmark; 1 in 4 saved and re-loaded; \
 start in {0, 1, inside the id range, above it, large}. Non-trivial = the call returned (no panic) on a document; distinct by request text.".into();
     witnesses(c);
     // ---- graphs without bookmarks, all start values: full isomorphism oracle
     for i in 0..c.n(4000, 80000) {
         let Some(mut r) = c.case("graph", i) else { continue };
-        let o = Opts { pages_in_id_order: r.chance(1, 5), bookmarks: false, dangling: if r.chance(1, 2) { Dangling::Safe } else { Dangling::None }, malformed: false, max_other: 10 };
+        let o = Opts { pages_in_id_order: r.chance(1, 5), bookmarks: false, dangling: if r.chance(1, 2) { Dangling::Safe } else { Dangling::None }, malformed: false, max_other: 10, deep_tree: false };
         let g = gen_doc(&mut r, &o);
         let g = maybe_loaded(c, &mut r, g);
         let start = pick_start(&mut r, &g.doc, &[0, 0, 1, 1, 2, 3, 4]);
@@ -548,7 +648,7 @@ start in {0, 1, inside the id range, above it, large}. Non-trivial = the call re
     // ---- bookmarks where old and new numberings cannot chain (pages in id order; start 1 / above / large)
     for i in 0..c.n(1500, 30000) {
         let Some(mut r) = c.case("bookmarks", i) else { continue };
-        let o = Opts { pages_in_id_order: true, bookmarks: true, dangling: Dangling::Safe, malformed: false, max_other: 8 };
+        let o = Opts { pages_in_id_order: true, bookmarks: true, dangling: Dangling::Safe, malformed: false, max_other: 8, deep_tree: false };
         let g = gen_doc(&mut r, &o);
         let g = maybe_loaded(c, &mut r, g);
         let start = pick_start(&mut r, &g.doc, &[0, 2, 3]);
@@ -557,22 +657,42 @@ start in {0, 1, inside the id range, above it, large}. Non-trivial = the call re
     // ---- known-finding territory: bookmarks with overlapping numberings, dangling references in range
     for i in 0..c.n(300, 5000) {
         let Some(mut r) = c.case("bookmarks_overlap", i) else { continue }; // known territory
-        let o = Opts { pages_in_id_order: false, bookmarks: true, dangling: Dangling::None, malformed: false, max_other: 6 };
+        let o = Opts { pages_in_id_order: false, bookmarks: true, dangling: Dangling::None, malformed: false, max_other: 6, deep_tree: false };
         let g = gen_doc(&mut r, &o);
         let start = pick_start(&mut r, &g.doc, &[0, 1, 1, 2]);
         run_case(c, "bookmarks_overlap", &g, start, Mode::Full);
     }
     for i in 0..c.n(300, 5000) {
         let Some(mut r) = c.case("dangling_in_range", i) else { continue };
-        let o = Opts { pages_in_id_order: r.chance(1, 2), bookmarks: false, dangling: Dangling::InRange, malformed: false, max_other: 8 };
+        let o = Opts { pages_in_id_order: r.chance(1, 2), bookmarks: false, dangling: Dangling::InRange, malformed: false, max_other: 8, deep_tree: false };
         let g = gen_doc(&mut r, &o);
         let start = pick_start(&mut r, &g.doc, &[0, 1, 2]);
         run_case(c, "dangling_in_range", &g, start, Mode::Full);
     }
+    // ---- references at nesting depths up to 128 (the referenced object is reached through them only), deeper page trees
+    for i in 0..c.n(250, 4000) {
+        let Some(mut r) = c.case("deep_nesting", i) else { continue };
+        let o = Opts { pages_in_id_order: r.chance(1, 3), bookmarks: false, dangling: if r.chance(1, 2) { Dangling::Safe } else { Dangling::None }, malformed: false, max_other: 5, deep_tree: r.chance(1, 2) };
+        let mut g = gen_doc(&mut r, &o);
+        for d in add_deep_refs(&mut r, &mut g) { c.count(if d >= 126 { "deep_ref_depth_ge_126" } else if d >= 64 { "deep_ref_depth_ge_64" } else { "deep_ref_depth_lt_64" }); if d == 128 { c.count("deep_ref_depth_128"); } }
+        let g = maybe_loaded(c, &mut r, g);
+        let start = pick_start(&mut r, &g.doc, &[0, 1, 1, 2, 3]);
+        run_case(c, "deep_nesting", &g, start, Mode::Full);
+    }
+    // ---- references whose generation disagrees with the stored object's: dangling, must stay so (or be a registered capture)
+    for i in 0..c.n(250, 4000) {
+        let Some(mut r) = c.case("stale_generation", i) else { continue };
+        let o = Opts { pages_in_id_order: r.chance(1, 3), bookmarks: false, dangling: Dangling::None, malformed: false, max_other: 8, deep_tree: r.chance(1, 3) };
+        let mut g = gen_doc(&mut r, &o);
+        let n = add_stale_refs(&mut r, &mut g);
+        c.count_n("stale_generation_refs", n as u64);
+        let start = pick_start(&mut r, &g.doc, &[0, 1, 1, 2, 3]);
+        run_case(c, "stale_generation", &g, start, Mode::Full);
+    }
     // ---- outside the guarded domain (same number twice, page listed twice, missing bookmark ids): model = code, dense numbering
     for i in 0..c.n(1000, 20000) {
         let Some(mut r) = c.case("malformed", i) else { continue };
-        let o = Opts { pages_in_id_order: false, bookmarks: r.chance(1, 2), dangling: Dangling::InRange, malformed: true, max_other: 6 };
+        let o = Opts { pages_in_id_order: false, bookmarks: r.chance(1, 2), dangling: Dangling::InRange, malformed: true, max_other: 6, deep_tree: false };
         let g = gen_doc(&mut r, &o);
         let start = pick_start(&mut r, &g.doc, &[0, 1, 2, 3, 4]);
         run_case(c, "malformed", &g, start, Mode::SanityOnly);
@@ -581,7 +701,7 @@ start in {0, 1, inside the id range, above it, large}. Non-trivial = the call re
     // back = how far the last id start+n-1 stays below u32::MAX (negative: beyond)
     for (i, back) in [-3i64, -1, 0, 0, 1, 2, 40].iter().enumerate() {
         let Some(mut r) = c.case("u32_boundary", i as u64) else { continue };
-        let o = Opts { pages_in_id_order: false, bookmarks: false, dangling: Dangling::None, malformed: false, max_other: 3 };
+        let o = Opts { pages_in_id_order: false, bookmarks: false, dangling: Dangling::None, malformed: false, max_other: 3, deep_tree: false };
         let g = gen_doc(&mut r, &o);
         let n = g.doc.objects.len() as i64;
         let start = (u32::MAX as i64 - back - (n - 1)).clamp(0, u32::MAX as i64) as u32;
